@@ -1197,7 +1197,7 @@ func (d *Driver) judgeC06() {
 					// stopped, restarted or crashed before its deadline => not a candidate over the window
 					gone := false
 					for _, a := range d.h.Apis {
-						if a.Inst == in.idx && a.TInv > st.TInv && a.TInv <= deadline && (a.Kind == AStop || a.Kind == AStopCtx || a.Kind == ARestart || a.Kind == AStart) {
+						if a.Inst == in.idx && a.TInv > st.TInv && a.TInv <= deadline && (a.Kind == AStop || a.Kind == AStopCtx || a.Kind == ARestart || a.Kind == AStart || a.Kind == ACancelStart) {
 							gone = true
 						}
 					}
